@@ -82,7 +82,9 @@ Diff(E, L) ==
      ELSE UNION {
         (IF E.cl[k].av # L.cl[k].av THEN {<<"cl", "av">>} ELSE {}) \cup
         (IF AsSet(E.cl[k].occ) # AsSet(L.cl[k].occ) THEN {<<"cl", "occ">>} ELSE {}) \cup
-        (IF AsSet(E.cl[k].inpool) # AsSet(L.cl[k].inpool) THEN {<<"cl", "inpool">>} ELSE {})
+        (IF AsSet(E.cl[k].inpool) # AsSet(L.cl[k].inpool) THEN {<<"cl", "inpool">>} ELSE {}) \cup
+        (IF AsSet(E.cl[k].pend) # AsSet(L.cl[k].pend) THEN {<<"cl", "pend">>} ELSE {}) \cup
+        (IF AsSet(E.cl[k].avl) # AsSet(L.cl[k].avl) THEN {<<"cl", "avl">>} ELSE {})
         : k \in 1..Len(E.cl)})
 
 InvViol(W, St) ==
@@ -133,7 +135,7 @@ StepViol(St, r) ==
     (IF r.size # c.size THEN {<<"loop", "step_size">>} ELSE {}) \cup
     (IF r.size < 0 THEN {<<"loop", "negative_step">>} ELSE {})
 
-EvOf(r) == Ev(r.ty, r.tm, r.t, r.g, r.pl)
+EvOf(r) == [ty |-> r.ty, tm |-> r.tm, t |-> r.t, g |-> r.g, pl |-> r.pl, pr |-> r.pr]
 PopViol(St, r) ==
     LET e == EvOf(r) IN
     IF ~InSeq(e, St.q) THEN {<<"pop", "not_in_queue">>}
